@@ -1,5 +1,6 @@
 import Bxh.Model.Mempool
 import Bxh.Proofs.PoolBatch
+import Bxh.Proofs.PoolHeld
 /-!
 # C18 — the pool batches each account's transactions in gap-free nonce order, once
 Theorems about `generateBlock` / `genStep` / `drainSkipped` of `Bxh.Mempool`
@@ -128,6 +129,12 @@ theorem C18_batched_grows_by_batch (p p' : Pool) (b : Batch) (h : generateBlock 
   · cases h
     rw [hbp]
     exact hI.grown x
+
+/-- **batch sequence numbers increase by one**: a generated batch carries the previous sequence number plus one, and a
+call that generates nothing leaves the number alone -/
+theorem C18_seqno_steps_by_one (p : Pool) :
+    (∀ p' b, generateBlock p = (p', some b) → p'.seqNo = p.seqNo + 1 ∧ b.height = p.seqNo + 1) ∧
+    (∀ p', generateBlock p = (p', none) → p'.seqNo = p.seqNo) := generateBlock_seqNo p
 
 /-- non-vacuity: nonces 0,1,2 of one account ready (committed nonce 0), nonce 1 listed twice in the priority index
 (a superseded transaction), nonce 4 parked: the batch is 0,1,2 -/
